@@ -60,6 +60,14 @@ $(B)/bin/%: $(B)/asan/h_%.o $(ASAN_LIBOBJS) $(ENGINE_OBJS)
 	@mkdir -p $(dir $@)
 	$(CXX) $(SAN) -o $@ $^ $(LIBS)
 
+$(B)/asan/newdelete.o: $(VERIF)engine/newdelete.cpp
+	@mkdir -p $(dir $@)
+	$(CXX) -std=c++11 -O1 -g $(SAN) -c $< -o $@
+# harnesses whose oracle needs a throwing operator new (absurd allocation sizes must raise bad_alloc)
+$(B)/bin/C07: $(B)/asan/h_C07.o $(ASAN_LIBOBJS) $(ENGINE_OBJS) $(B)/asan/newdelete.o
+	@mkdir -p $(dir $@)
+	$(CXX) $(SAN) -o $@ $^ $(LIBS)
+
 harness-%: $(B)/bin/%
 	@true
 
